@@ -268,9 +268,13 @@ class Interface(object):
 
         key = method.gen_interface_key(s)
         if key in self.method_id_map:
-            c = self.method_id_map[key].parent_class
+            other = self.method_id_map[key]
+            c = other.parent_class
             if c is None:
-                pass
+                if other is not method:
+                    raise ValueError("The method key %r of '%s.%s' is already "
+                                     "taken by another method." %
+                                           (key, s.__module__, s.__name__))
 
             elif c is s:
                 pass
